@@ -1060,6 +1060,138 @@ impl<'a, K, V> IntoIterator for &'a mut HashMap<K, V> {
 }
 
 // ---------------------------------------------------------------------------------------
+// Once / OnceLock / Barrier on top of the controlled Mutex / Condvar: the std versions block
+// the OS thread for real, which the runtime (one thread runs at a time) cannot see
+
+pub struct Once {
+  /// 0 = new, 1 = running, 2 = done
+  state: Mutex<u8>,
+  cv: Condvar,
+}
+
+impl Once {
+  pub const fn new() -> Once {
+    Once { state: Mutex::new(0), cv: Condvar::new() }
+  }
+  pub fn call_once<F: FnOnce()>(&self, f: F) {
+    {
+      let mut st = self.state.lock().unwrap();
+      loop {
+        match *st {
+          2 => return,
+          1 => st = self.cv.wait(st).unwrap(),
+          _ => {
+            *st = 1;
+            break;
+          }
+        }
+      }
+    }
+    f();
+    *self.state.lock().unwrap() = 2;
+    self.cv.notify_all();
+  }
+  pub fn is_completed(&self) -> bool {
+    *self.state.lock().unwrap() == 2
+  }
+}
+
+impl std::fmt::Debug for Once {
+  fn fmt(&self, f: &mut std::fmt::Formatter<'_>) -> std::fmt::Result {
+    f.write_str("Once { .. }")
+  }
+}
+
+pub struct OnceLock<T> {
+  once: Once,
+  slot: std::sync::OnceLock<T>,
+}
+
+impl<T> OnceLock<T> {
+  pub const fn new() -> OnceLock<T> {
+    OnceLock { once: Once::new(), slot: std::sync::OnceLock::new() }
+  }
+  pub fn get(&self) -> Option<&T> {
+    if crate::rt::current().is_some() {
+      crate::rt::yield_point();
+    }
+    self.slot.get()
+  }
+  pub fn set(&self, value: T) -> Result<(), T> {
+    let mut v = Some(value);
+    self.once.call_once(|| {
+      let _ = self.slot.set(v.take().unwrap());
+    });
+    match v {
+      None => Ok(()),
+      Some(x) => Err(x),
+    }
+  }
+  pub fn get_or_init<F: FnOnce() -> T>(&self, f: F) -> &T {
+    self.once.call_once(|| {
+      let _ = self.slot.set(f());
+    });
+    self.slot.get().expect("OnceLock initialised")
+  }
+  pub fn into_inner(self) -> Option<T> {
+    self.slot.into_inner()
+  }
+  pub fn take(&mut self) -> Option<T> {
+    self.once = Once::new();
+    self.slot.take()
+  }
+}
+
+impl<T> Default for OnceLock<T> {
+  fn default() -> Self {
+    OnceLock::new()
+  }
+}
+
+impl<T: std::fmt::Debug> std::fmt::Debug for OnceLock<T> {
+  fn fmt(&self, f: &mut std::fmt::Formatter<'_>) -> std::fmt::Result {
+    self.slot.fmt(f)
+  }
+}
+
+pub struct Barrier {
+  n: usize,
+  /// (arrived, generation)
+  st: Mutex<(usize, usize)>,
+  cv: Condvar,
+}
+
+pub struct BarrierWaitResult(bool);
+
+impl BarrierWaitResult {
+  pub fn is_leader(&self) -> bool {
+    self.0
+  }
+}
+
+impl Barrier {
+  pub const fn new(n: usize) -> Barrier {
+    Barrier { n, st: Mutex::new((0, 0)), cv: Condvar::new() }
+  }
+  pub fn wait(&self) -> BarrierWaitResult {
+    let mut st = self.st.lock().unwrap();
+    let gen = st.1;
+    st.0 += 1;
+    if st.0 >= self.n {
+      st.0 = 0;
+      st.1 = st.1.wrapping_add(1);
+      drop(st);
+      self.cv.notify_all();
+      return BarrierWaitResult(true);
+    }
+    while st.1 == gen {
+      st = self.cv.wait(st).unwrap();
+    }
+    BarrierWaitResult(false)
+  }
+}
+
+// ---------------------------------------------------------------------------------------
 // atomics: real atomics (one thread runs at a time) with a scheduling point before every
 // operation, so that code which is rewritten from locks to atomics keeps its preemption
 // points
